@@ -72,7 +72,8 @@ FIXTURES = {
                          '2310B', 'LX', 'SV1', '2430', 'SVD', '../CLM', '../REF[F8]', '../2400', '../2400/LX', '../LX',
                          '../../CLM', 'ZZZ', 'CLM[XX]', '../../../CLM'],
                  gpaths=['CLM02', 'CLM05-3', 'REF[EA]02', 'REF02', '2400/LX01', '2400/SV101-2', '2400/2430/SVD02', 'SV102',
-                         '../CLM02', '../../CLM02', '02', '01-2', 'LX01', 'SVD02', 'CN102', 'CLM']),
+                         '../CLM02', '../../CLM02', '02', '01-2', 'LX01', 'SVD02', 'CN102', 'CLM',
+                         'REF[EA]06', 'REF[EA]04-2']),      # a write far beyond the end of a segment, then a component write into the gap
     's835': dict(doc=HDR_835 + "CLP*C1*22*-310*-210*0*HM*63~\nNM1*QC*1*Flint*Fred~\nSVC*HC:T1017*-310*-210~\n"
                  "DTM*150*20080111~\nSVC*HC:T1018*5*5~\n" + TRL_835, loop='2100', pick=0,
                  adds=['NM1*QC*1*Flint*Fred', 'NM1*74*1*Rubble', 'AMT*AU*580', 'DTM*232*20080101', 'SVC*HC:T1019*1*1',
